@@ -5,8 +5,8 @@ CONSTANTS
  MaxTicket = 8
  MaxStale = 0
  MaxExh = 0
- MaxReins = 0
+ MaxReins = 1
  AllowRemove = FALSE
- Dev = {"pending_not_put_back"}
+ Dev = {"putback_overwrites"}
 INVARIANTS NoStreamLost
 CHECK_DEADLOCK FALSE
